@@ -232,7 +232,7 @@ class Exec(StmtMixin, CallMixin):
             if r is not NotImplemented:
                 return r
             raise Unsupported("attribute %s.%s (line %d)" % (base.name, a, n.lineno))
-        if isinstance(base, (SList, list, dict, str, tuple)) or type(base).__name__ == "_Map":
+        if isinstance(base, (SList, list, dict, str, tuple, set, frozenset)) or type(base).__name__ == "_Map":
             return SFunc(name="builtin." + a, handler=("method", base))
         if isinstance(base, SFunc) and base.target and not base.handler:
             return SFunc(target=base.target + "." + a, name=(base.name or base.target) + "." + a)   # Class.static_method
@@ -280,6 +280,26 @@ class Exec(StmtMixin, CallMixin):
     def e_List(self, n, st):
         return SList([self.eval(e, st) for e in n.elts])
 
+    def e_Set(self, n, st):
+        items = [self.eval(e_, st) for e_ in n.elts]
+        if not all(isinstance(x_, (str, int)) and not isinstance(x_, bool) for x_ in items):
+            raise Unsupported("set literal of non-constant elements (line %d)" % n.lineno)
+        return set(items)
+
+    def e_JoinedStr(self, n, st):
+        # an f-string (only ever a message here): rendered, symbolic parts as placeholders
+        parts = []
+        for v_ in n.values:
+            if isinstance(v_, ast.Constant):
+                parts.append(str(v_.value))
+            else:
+                try:
+                    val = self.eval(v_.value, st)
+                    parts.append(val if isinstance(val, str) else "<%s>" % type(val).__name__)
+                except Unsupported:
+                    parts.append("<?>")
+        return "".join(parts)
+
     def e_Dict(self, n, st):
         out = {}
         for k, v in zip(n.keys, n.values):
@@ -313,6 +333,8 @@ class Exec(StmtMixin, CallMixin):
         a = self.eval(n.left, st)
         b = self.eval(n.right, st)
         op = BINOPS[type(n.op)]
+        if isinstance(a, (set, frozenset)) and isinstance(b, (set, frozenset)) and op in ("-", "|", "&"):
+            return a - b if op == "-" else (a | b if op == "|" else a & b)
         if isinstance(a, (str, SStr)) and isinstance(b, (str, SStr)) and op == "+":
             from .vals import str_cat
             return str_cat(a, b)
@@ -544,4 +566,4 @@ def to_z(v):
 BUILTIN_NAMES = {"array_of", "min", "max", "abs", "int", "float", "len", "range", "prange", "isnan", "isfinite", "isinf", "all", "any",
                  "implies", "eq", "old", "sum", "floor", "ceil", "bool", "list", "tuple", "enumerate", "zip", "round",
                  "literal_eval", "print", "isinstance", "str", "sorted", "map", "rint", "sqrt", "bit", "forall_cells",
-                 "shape_eq", "unchanged", "trunc", "dict", "type", "iff", "tok", "sum32", "Window", "repr", "Margins"}
+                 "shape_eq", "unchanged", "trunc", "dict", "type", "iff", "tok", "sum32", "Window", "repr", "Margins", "filter", "set"}
